@@ -24,6 +24,7 @@ def dispatch (line : String) : String :=
     else if t == "verify" then verifyLine toks
     else if t == "refeval" then refLine toks
     else if t == "pegtrace" then pegLine toks
+    else if t == "matchrest" then matchRestLine toks
     else "bad-op"
 
 partial def loop (hin : IO.FS.Stream) (hout : IO.FS.Stream) : IO Unit := do
